@@ -458,9 +458,15 @@ func (c *client) findClients(ctx context.Context, batch []hrpc.Call, res []hrpc.
 }
 
 func hasDeadRegion(rpcByClient map[hrpc.RegionClient][]hrpc.Call) bool {
-	for _, rpcs := range rpcByClient {
+	for rc, rpcs := range rpcByClient {
 		for _, rpc := range rpcs {
 			if rpc.Region().Context().Err() != nil {
+				return true
+			}
+			if cur := rpc.Region().Client(); cur != nil && cur != rc {
+				// Same thing when the region has been re-established on
+				// another region client since the call was located:
+				// the one it was grouped under is dead.
 				return true
 			}
 		}
